@@ -20,7 +20,7 @@ from .c03 import staircase_ok
 ID = "C12"
 TECHNIQUE = "bounded-exhaustive grid enumeration of symmetric PSD inputs x eigenvector estimates x QR settings on the real matrix_eigenvectors; structural oracles (orthonormal, diagonalising, ordered, orthogonal-iteration staircase, fixed point)"
 RULE = (
-    "n in {1,2,3,4,8,16[,5,6,7,12,32,64]} x spectra {distinct, repeated_pair, equal, one_zero, rankdef} x bases {identity, perm, householder, givens, dct} x dtype {f32,f64}; eigh, diagonal flag; QR with estimate in "
+    "n in {1,2,3,4,5,8,16[,6,7,12,32,64 thorough]} x spectra {distinct, repeated_pair, equal, one_zero, rankdef} x bases {identity, perm, householder, givens, dct} x dtype {f32,f64}; eigh, diagonal flag; QR with estimate in "
     "{zero, exact, exact-permuted, rotated(1e-3), rotated(1e-6), rotated(0.3), rotated(1.2), identity} x max_iterations {1,2,5,50} x tolerance {0,1e-5,1e-1,1e-9}. state = the input tuple; non-trivial = QR case with a non-zero estimate"
 )
 ASSUMPTIONS = ["grid only", "on degenerate subspaces only 'still an orthonormal basis spanning the iteration' is required", "c = 64 in rounding bounds; staircase zero threshold 1e-3 (f32) / 1e-8 (f64) of max|M|"]
@@ -44,7 +44,7 @@ def bounds(tier):
 
 def ns_for(tier):
     # thorough adds odd / non-power-of-two sizes (5, 6, 7, 12) and the intermediate 32 next to 64
-    return [1, 2, 3, 4, 8, 16] + ([5, 6, 7, 12, 32, 64] if tier == "thorough" else [])
+    return [1, 2, 3, 4, 5, 8, 16] + ([6, 7, 12, 32, 64] if tier == "thorough" else [])
 
 
 def cases(tier):
